@@ -11,12 +11,12 @@ LIM_OLD = """                max_line_length = (
 """
 CASES = [
  # C03
- B("tail-other-limit", HP, "                    if len(self._tail) - self._tail.endswith(b\"\\r\") > max_line_length:\n                        raise LineTooLong(self._tail[:100] + b\"...\", max_line_length)",
-   "                    if len(self._tail) - self._tail.endswith(b\"\\r\") > self.max_line_size:\n                        raise LineTooLong(self._tail[:100] + b\"...\", self.max_line_size)", ["C03.rp2"], "partial header line compared with the start-line limit", ("C03",)),
+ B("tail-other-limit", HP, "                    if len(tail) - tail.endswith(b\"\\r\") > max_line_length:\n                        raise LineTooLong(tail[:100] + b\"...\", max_line_length)",
+   "                    if len(tail) - tail.endswith(b\"\\r\") > self.max_line_size:\n                        raise LineTooLong(tail[:100] + b\"...\", self.max_line_size)", ["C03.rp2"], "partial header line compared with the start-line limit", ("C03",)),
  B("cache-upgrade-local", HP, "        while start_pos < data_len or self._payload_has_more_data:\n", "        seen_msg = False\n        while start_pos < data_len or self._payload_has_more_data:\n            if seen_msg and not self._lines and self.lax:\n                break\n", ["C03.rp"], "placeholder - replaced below", ("C03",)),
  B("chunk-tail-drop", HP, "                        self._chunk_tail = chunk\n                        return PayloadState.PAYLOAD_NEEDS_INPUT, b\"\"\n\n                # read chunk and feed buffer", "                        return PayloadState.PAYLOAD_NEEDS_INPUT, b\"\"\n\n                # read chunk and feed buffer", ["C03.save"], "partial chunk-size line dropped when more input is requested", ("C03",)),
- B("tail-drop", HP, "                else:\n                    self._tail = data[start_pos:]\n                    # A bare LF here", "                else:\n                    tail = data[start_pos:]\n                    # A bare LF here", ["C03.save", "C03.rp", "C03.rp2"], "unconsumed partial line not stored", ("C03",)),
- B("trailer-tail-limit", HP, "                    if self._chunk == ChunkState.PARSE_TRAILERS:\n                        max_line_length = self._max_field_size\n", "", ["C03.rp2"], "buffered partial trailer compared with the chunk-size limit", ("C03",)),
+ B("tail-drop", HP, "                    # Only a line within the limits is retained.\n                    self._tail = tail\n", "                    # Only a line within the limits is retained.\n", ["C03.save", "C03.rp", "C03.rp2"], "unconsumed partial line not stored", ("C03",)),
+ B("trailer-tail-limit", HP, "                        if len(chunk) - chunk.endswith(b\"\\r\") > self._max_field_size:\n                            raise LineTooLong(\n                                chunk[:100] + b\"...\", self._max_field_size\n                            )\n", "                        if len(chunk) - chunk.endswith(b\"\\r\") > self._max_line_size:\n                            raise LineTooLong(\n                                chunk[:100] + b\"...\", self._max_line_size\n                            )\n", ["C03.rp2"], "buffered partial trailer compared with the chunk-size limit", ("C03",)),
  B("state-writer", WP, "            if self._parser is not None:\n                self._parser.message_consumed()", "            if self._parser is not None:\n                self._parser._msg_in_flight -= 1", ["C03.state"], "protocol pokes parser state directly", ("C03",)),
  B("stale-offset", HP, "                start_pos = 0\n                data_len = len(data)\n                self._payload_parser = None", "                data_len = len(data)\n                self._payload_parser = None", ["C03.rp3"], "cursor not reset after the buffer was replaced by the body parser's remainder", ("C03",)),
  N("rename-startpos", HP, "start_pos", "cursor", "rename the cursor local", ("C03", "C10"), count=15),
@@ -26,7 +26,7 @@ CASES = [
  B("split-unpack", HP, "        try:\n            method, path, version = line.split(\" \", maxsplit=2)\n        except ValueError:\n            raise BadHttpMethod(line) from None\n", "        method, path, version = line.split(\" \", maxsplit=2)\n", ["C10.total.request"], "ValueError from tuple unpacking leaves the parser", ("C10", "C01")),
  B("strict-decode", HP, "        line = lines[0].decode(\"utf-8\", \"surrogateescape\")\n        try:\n            method, path, version", "        line = lines[0].decode(\"utf-8\")\n        try:\n            method, path, version", ["C10.total.request"], "UnicodeDecodeError on a non-UTF-8 request line", ("C10",)),
  B("lines-nocount", HP, "                    if len(self._lines) > self.max_headers:\n                        raise BadHttpMessage(\"Too many headers received\")\n", "", ["C10.retention", "C01.rej.toomany"], "unbounded number of header lines retained", ("C10",)),
- B("tail-nolimit", HP, "                    if len(self._tail) - self._tail.endswith(b\"\\r\") > max_line_length:\n                        raise LineTooLong(self._tail[:100] + b\"...\", max_line_length)\n", "", ["C10.retention", "C10.limits", "C03.rp2"], "an endless line is buffered without limit", ("C10", "C03")),
+ B("tail-nolimit", HP, "                    if len(tail) - tail.endswith(b\"\\r\") > max_line_length:\n                        raise LineTooLong(tail[:100] + b\"...\", max_line_length)\n", "", ["C10.retention", "C10.limits", "C03.rp2"], "an endless line is buffered without limit", ("C10", "C03")),
  B("client-map", CP, "        except BaseException as underlying_exc:\n            if self.transport is not None:", "        except HttpProcessingError as underlying_exc:\n            if self.transport is not None:", ["C10.total.client"], "placeholder", ("C10",)),
  B("trailer-budget", HP, "                                max_trailers=max_trailers,\n                                limit=self._limit,\n                            )\n                            if not payload_parser.done:\n                                self._payload_parser = payload_parser\n                                # https://www.rfc-editor.org/info/rfc9110/#section-7.8-15", "                                limit=self._limit,\n                            )\n                            if not payload_parser.done:\n                                self._payload_parser = payload_parser\n                                # https://www.rfc-editor.org/info/rfc9110/#section-7.8-15", ["C10.limits.config"], "trailers of a chunked request are not charged against max_headers", ("C10",)),
  B("server-limits", WP, "            max_field_size=max_field_size,\n            max_headers=max_headers,\n            payload_exception=RequestPayloadError,", "            max_headers=max_headers,\n            payload_exception=RequestPayloadError,", ["C10.limits.config"], "configured max_field_size not handed to the parser", ("C10",)),
